@@ -371,6 +371,11 @@ def _hash_rule(ctx):
             if kw.arg == 'encoding':
                 enc = kw.value
         errors_kw = [kw for kw in data.keywords if kw.arg == 'errors'] or data.args[1:2]
+        if isinstance(enc, (ast.Name, ast.Attribute)):
+            # a module-level constant that names the encoding
+            sym_ = prog.resolve_expr_symbol(fn.module, enc)
+            if isinstance(sym_, tuple) and sym_[0] == 'const' and isinstance(sym_[1], ast.Constant):
+                enc = sym_[1]
         if enc is None:
             enc_ok = True       # str.encode() defaults to utf-8
         elif isinstance(enc, ast.Constant) and isinstance(enc.value, str) and \
